@@ -43,6 +43,15 @@ def log_tp(n, path, line, via, method=None):
     return {'id': 'tp%d' % n, 'path': path, 'line': line, 'args': args, 'metrics': [], 'via': via}
 
 
+def unmatchable_tp(n, path, via):
+    """a method tracepoint WITHOUT a method name: FunctionLocation(path, None).  On a frame-like object (as on a file
+    whose source is not available) its at_location raises at every event of a file with that name — it never acts and
+    must not disturb the tracepoints around it"""
+    args = dict(th.UNLIMITED)
+    args.update(snapshot='no_collect', log_msg='nameless', stage='method_start')
+    return {'id': 'tp%d' % n, 'path': path, 'line': 0, 'args': args, 'metrics': [], 'via': via, 'unmatchable': True}
+
+
 # --------------------------------------------------------------------------------------- implementation
 def run_impl(case):
     core.use_repo()
@@ -122,7 +131,8 @@ def oracle(case, obs):
 # --------------------------------------------------------------------------------------- model
 def lean_tp(i, tp):
     loc = th.tp_location(tp)
-    l = {'t': 'line', 'path': loc[1], 'line': loc[2]} if loc[0] == 'line' else {'t': 'func', 'path': loc[1], 'name': loc[2]}
+    l = {'t': 'line', 'path': loc[1], 'line': loc[2]} if loc[0] == 'line' else \
+        {'t': 'nosource', 'path': loc[1]} if loc[0] == 'nosource' else {'t': 'func', 'path': loc[1], 'name': loc[2]}
     return {'loc': l, 'actions': [{'tp': i, 'kind': 'log'}]}
 
 
@@ -151,7 +161,96 @@ def compare(case, obs, resp):
 
 
 # --------------------------------------------------------------------------------------- generation
+def gen_err_case(rng, tier):
+    """ERROR PATH: a tracepoint whose location check raises (method tracepoint without a name: the frame has no source)
+    sits DIRECTLY BEFORE an ordinary tracepoint of the same file in configuration order, and the very first event of
+    that file is the ordinary tracepoint's own location — it must act there (and at every later hit), the failing one
+    never, whatever else is configured."""
+    P = rng.choice(['m.py', 'a.py', 'mod.py'])
+    via = rng.choice(['resp', 'custom'])
+    tps = []
+    for _ in range(rng.randint(0, 3)):
+        tps.append(log_tp(len(tps), rng.choice([P, 'other.py']), rng.choice([1, 2, 3, 300]), rng.choice(['resp', 'custom'])))
+    pos = len(tps)
+    tps.insert(pos, None)
+    nfail = rng.choice([1, 1, 2])
+    block = [unmatchable_tp(0, P, via) for _ in range(1)]
+    if rng.random() < 0.5:
+        target = log_tp(0, P, 0, via, method=rng.choice(['f', 'g', '__init__']))
+    else:
+        target = log_tp(0, P, rng.choice([1, 3, 257]), via)
+    block.append(target)
+    if nfail == 2:
+        # a second pair right behind: failing, ordinary
+        block.append(unmatchable_tp(0, P, via) if via == 'custom' else log_tp(0, P, 7, via))
+        block.append(log_tp(0, P, 9, via))
+    tps[pos:pos + 1] = block
+    for _ in range(rng.randint(0, 2)):
+        tps.append(log_tp(0, rng.choice([P, 'other.py']), rng.choice([2, 5, 9]), rng.choice(['resp', 'custom'])))
+    # configuration order = converted response first, registered ones after: keep the block adjacent in its route
+    for i, tp in enumerate(tps):
+        tp['id'] = 'tp%d' % i
+    loc = th.tp_location(target)
+    hit = ['call', rng.choice(DIRS[:9]) + P, rng.choice([1, 10]), loc[2]] if loc[0] == 'func' else \
+        ['line', rng.choice(DIRS[:9]) + P, loc[2], rng.choice(FUNCS[:3])]
+    events = [[rng.choice(KINDS[:7]), '/app/other.py', rng.choice([1, 2, 3]), 'h'] for _ in range(rng.randint(0, 2))]
+    events.append(list(hit))
+    for _ in range(rng.randint(2, 8)):
+        r = rng.random()
+        if r < 0.4:
+            events.append(list(hit))
+        elif r < 0.7:
+            tp = rng.choice([t for t in tps if not t.get('unmatchable')])
+            l2 = th.tp_location(tp)
+            events.append(['call', '/app/' + l2[1], 1, l2[2]] if l2[0] == 'func' else ['line', '/app/' + l2[1], l2[2], 'f'])
+        else:
+            events.append([rng.choice(KINDS[:7]), '/app/' + rng.choice([P, 'other.py']), rng.choice([1, 3, 7, 9]),
+                           rng.choice(FUNCS[:3])])
+    return {'kind': 'loc', 'stream': 'loc-err', 'tps': tps, 'events': events}
+
+
+def gen_scale_case(rng, tier):
+    """SCALE: 20-80 installed tracepoints over several files and many lines, among them same-location groups from
+    different sources (polled + registered, registered + registered, polled + polled: the latter merged into one
+    trigger by convert_response) — every tracepoint of a location acts there, independently of the others."""
+    files = ['m%d.py' % i for i in range(rng.randint(2, 6))]
+    n = rng.randint(20, 80)
+    tps = []
+    locs = []
+    while len(tps) < n:
+        f = rng.choice(files)
+        if rng.random() < 0.25:
+            loc = ('func', f, rng.choice(['f', 'g', 'h', 'run', '__init__']))
+        else:
+            loc = ('line', f, rng.randint(1, 60))
+        group = rng.choice([['resp'], ['custom'], ['resp'], ['resp', 'custom'], ['custom', 'custom'], ['resp', 'resp'],
+                            ['resp', 'custom', 'custom']])
+        locs.append((loc, group))
+        for via in group:
+            tps.append(log_tp(len(tps), loc[1], loc[2] if loc[0] == 'line' else 0, via,
+                              method=loc[2] if loc[0] == 'func' else None))
+    rng.shuffle(tps)
+    for i, tp in enumerate(tps):
+        tp['id'] = 'tp%d' % i
+    shared = [l for l, g in locs if len(g) > 1] or [l for l, g in locs]
+    events = []
+    for _ in range(rng.randint(8, 24)):
+        r = rng.random()
+        loc = rng.choice(shared) if r < 0.6 else rng.choice(locs)[0]
+        ev = ['call', rng.choice(DIRS[:6]) + loc[1], rng.randint(1, 60), loc[2]] if loc[0] == 'func' else \
+            ['line', rng.choice(DIRS[:6]) + loc[1], loc[2], rng.choice(FUNCS[:3])]
+        if r > 0.9:
+            ev[0] = rng.choice(KINDS[:7])
+        events.append(ev)
+    return {'kind': 'loc', 'stream': 'loc-scale', 'tps': tps, 'events': events}
+
+
 def gen_case(rng, tier):
+    r0 = rng.random()
+    if r0 < 0.25:
+        return gen_err_case(rng, tier)
+    if r0 < 0.4:
+        return gen_scale_case(rng, tier)
     ntp = rng.randint(3, 8)
     base = rng.choice(['m.py', 'm.py', 'a.py', 'mödule.py', '<string>', 'm'])
     tps = []
@@ -208,13 +307,28 @@ def corpus():
               ['call', '/app/m.py', 1, 'g'], ['line', '/app/m.py', 300, 'f'], ['line', '/app/m.py', 301, 'f'],
               ['LINE', '/app/m.py', 3, 'f'], ['line', 'C:\\app\\m.py', 3, 'f'], ['line', '/app/M.py', 3, 'f'],
               ['line', '/app/m.py', 2 ** 40, 'f'], ['opcode', '/app/m.py', 3, 'f']]
-    return [{'kind': 'loc', 'stream': 'loc', 'tps': tps, 'events': events}]
+    u = [log_tp(0, 'other.py', 1, 'resp'), unmatchable_tp(1, 'm.py', 'custom'), log_tp(2, 'm.py', 0, 'custom', method='f'),
+         unmatchable_tp(3, 'm.py', 'custom'), log_tp(4, 'm.py', 3, 'custom')]
+    big = [log_tp(i, 'm%d.py' % (i % 3), 1 + i // 3, 'resp' if i % 2 else 'custom') for i in range(20)] + \
+        [log_tp(20, 'm0.py', 1, 'resp'), log_tp(21, 'm0.py', 1, 'custom'), log_tp(22, 'm1.py', 2, 'custom'),
+         log_tp(23, 'm1.py', 0, 'custom', method='f'), log_tp(24, 'm1.py', 0, 'resp', method='f')]
+    return [{'kind': 'loc', 'stream': 'loc', 'tps': tps, 'events': events},
+            # error path: a failing location check directly before an ordinary tracepoint, first event = its location
+            {'kind': 'loc', 'stream': 'loc-err', 'tps': u,
+             'events': [['call', '/app/m.py', 1, 'f'], ['line', '/app/m.py', 3, 'f'], ['call', '/app/m.py', 1, 'f'],
+                        ['line', '/app/m.py', 3, 'f'], ['line', '/app/other.py', 1, 'h']]},
+            # scale: 25 installed tracepoints, same-location groups from different sources
+            {'kind': 'loc', 'stream': 'loc-scale', 'tps': big,
+             'events': [['line', '/app/m0.py', 1, 'f'], ['line', '/app/m1.py', 2, 'f'], ['call', '/app/m1.py', 9, 'f'],
+                        ['line', '/app/m2.py', 1, 'g'], ['return', '/app/m0.py', 1, 'f']]}]
 
 
 def label(case, obs):
     if 'raised' in obs:
         return 'loc/raised'
     n = sum(len(o['ids']) for o in obs['events'])
+    if case.get('stream') in ('loc-err', 'loc-scale'):
+        return '%s/%s' % (case['stream'], 'none' if n == 0 else 'few' if n < 6 else 'many')
     with_dir = any('/' in tp['path'] for tp in case['tps'])
     return 'loc/%s/%s' % ('dir-path' if with_dir else 'names', 'none' if n == 0 else 'few' if n < 6 else 'many')
 
@@ -226,6 +340,8 @@ def nontrivial(case, obs):
         return False
     if not any(o['ids'] for o in obs['events']):
         return False
+    if case.get('stream') in ('loc-err', 'loc-scale'):
+        return True
     for ev, o in zip(case['events'], obs['events']):
         for tp in case['tps']:
             loc = th.tp_location(tp)
